@@ -353,9 +353,15 @@ func cmdCheck(args []string) {
 		"distinct_nontrivial":     nDis,
 		"rule":                    "one evaluation = one named proof obligation generated from the current source (path instances of the same site are merged); non-trivial = discharged by a solver or by the static ownership/frame analysis",
 	}
-	os.MkdirAll(filepath.Join(vd, "evidence"), 0o755)
+	// evidence describes runs against the repository itself; the must-fail self-test (mutated scratch copies) sends its
+	// evidence elsewhere
+	evDir := filepath.Join(vd, "evidence")
+	if d := os.Getenv("QV_EVIDENCE_DIR"); d != "" {
+		evDir = d
+	}
+	os.MkdirAll(evDir, 0o755)
 	b, _ := json.MarshalIndent(ev, "", " ")
-	os.WriteFile(filepath.Join(vd, "evidence", ps.ID+".json"), b, 0o644)
+	os.WriteFile(filepath.Join(evDir, ps.ID+".json"), b, 0o644)
 
 	for _, k := range knownHit {
 		fmt.Println(k)
